@@ -180,6 +180,9 @@ class ArrayUnionMatcher(CombinationMatcher):
         self._partsize = partsize
 
         self._a = array("d", (0 for _ in xrange(self._partsize)))
+        # Which slots of the score array hold a matching document (a score
+        # can legitimately be zero or negative)
+        self._present = bytearray(self._partsize)
         self._docnum = self._min_id()
         self._read_part()
 
@@ -199,6 +202,7 @@ class ArrayUnionMatcher(CombinationMatcher):
         m.__dict__.update(self.__dict__)
         m._submatchers = [subm.copy() for subm in self._submatchers]
         m._a = array("d", self._a)
+        m._present = bytearray(self._present)
         return m
 
     def _min_id(self):
@@ -215,9 +219,12 @@ class ArrayUnionMatcher(CombinationMatcher):
         offset = self._docnum
         a = self._a
 
+        present = self._present
+
         # Clear the array
         for i in xrange(self._partsize):
             a[i] = 0
+            present[i] = 0
 
         # Add the scores from the submatchers into the array
         for m in self._submatchers:
@@ -227,6 +234,7 @@ class ArrayUnionMatcher(CombinationMatcher):
                     a[i] += m.score() * boost
                 else:
                     a[i] = 1
+                present[i] = 1
                 m.next()
 
         self._offset = offset
@@ -238,8 +246,9 @@ class ArrayUnionMatcher(CombinationMatcher):
         offset = self._offset
         limit = self._limit
 
+        present = self._present
         while docnum < limit:
-            if a[docnum - offset] > 0:
+            if present[docnum - offset]:
                 break
             docnum += 1
 
@@ -310,9 +319,8 @@ class ArrayUnionMatcher(CombinationMatcher):
         offset = self._offset
         limit = self._limit
 
-        a = self._a
         while docnum < doccount:
-            if a[docnum - offset] > 0:
+            if self._present[docnum - offset]:
                 yield docnum
 
             docnum += 1
